@@ -40,7 +40,7 @@ func zxUpdateAcc(l zxLayout, prev []byte, p zxPointParams) []byte {
 // >= ts and into no other; every other period newer than the bound keeps its state; a point whose
 // period is not newer than the bound is not stored; no period newer than the bound is dropped.
 //
-//zx:harness prop=C01+C14 id=U tier=quick env=sum shard=e:2,res:2,nS:3,hasTB:2 ne=2 quick.below=1 quick.above=3 quick.tbbelow=0 quick.tbabove=2 N=2 thorough.N=3 thorough.ne=4 thorough.nres=3 thorough.shard=e:4,res:3,nS:4
+//zx:harness prop=C01+C14 id=U tier=quick env=sum shard=e:2,res:2,nS:4,hasTB:2,tsK:6 ne=2 quick.below=1 quick.above=2 quick.tbbelow=0 quick.tbabove=1 N=3 thorough.N=4 thorough.ne=4 thorough.nres=3 thorough.shard=e:4,res:3,nS:4
 func zxC01Update() {
 	l := zxLayoutFor()
 	res := zxRes()
@@ -93,7 +93,7 @@ func zxC01Update() {
 // with commutativity and associativity of Merge (C05.M2/M3) this gives independence from any
 // split of a key's updates between file and memory (DESIGN §5 C03.S). Real mode for sums.
 //
-//zx:harness prop=C03+C01 id=C03.S tier=quick mode=real env=sum shard=e:2,res:2,nS:3,hasTB:2 ne=2 quick.below=1 quick.above=3 quick.tbbelow=0 quick.tbabove=2 N=2 thorough.N=3 thorough.ne=4 thorough.nres=3 thorough.shard=e:4,res:3,nS:4
+//zx:harness prop=C03+C01 id=C03.S tier=quick mode=real env=sum shard=e:2,res:2,nS:4,hasTB:2,tsK:6 ne=2 quick.below=1 quick.above=2 quick.tbbelow=0 quick.tbabove=1 N=3 thorough.N=4 thorough.ne=4 thorough.nres=3 thorough.shard=e:4,res:3,nS:4
 func zxC03Split() {
 	l := zxLayoutFor()
 	res := zxRes()
